@@ -22,6 +22,11 @@ Theorem coerce_iff_lt : forall act exp,
   (~ widens act exp -> try_coerce_to act exp = NoCoerce).
 Proof. exact coerce_iff_lt_all. Qed.
 Print Assumptions coerce_iff_lt.
+Example coerce_iff_lt_instances :
+  try_coerce_to TNat TFloat = CoerceVia (mkMeth TNat "__float__" [TNat] (RScalar TFloat) (IHugr "arithmetic.conversions" "convert_u" 1)) /\
+  try_coerce_to TNat TInt = CoerceVia (mkMeth TNat "__int__" [TNat] (RScalar TInt) INoop) /\
+  try_coerce_to TFloat TInt = NoCoerce /\ try_coerce_to TInt TNat = NoCoerce /\ try_coerce_to TBool TInt = NoCoerce.
+Proof. vm_compute. repeat split. Qed.
 
 (* no narrowing: in every position an accepted (actual, expected) pair is an equality or a
    widening; everything else is a type error (never an internal error); in the positions that
@@ -36,6 +41,11 @@ Proof.
   split; [apply narrowing_rejected |]. split; [apply non_coercing_positions | apply never_crashes].
 Qed.
 Print Assumptions no_narrowing.
+Example no_narrowing_instances :
+  position_outcome PArgument TFloat TInt = Reject /\ position_outcome PReturn TInt TNat = Reject /\
+  position_outcome PAnnAssign TFloat TNat = Reject /\ position_outcome PMethodOperand TBool TInt = Reject /\
+  position_outcome PCallResult TInt TFloat = Reject /\ position_outcome PLiteral TInt TFloat = Accept [HOp "arithmetic.conversions" "convert_s"].
+Proof. vm_compute. repeat split. Qed.
 
 (* ... and the widenings are accepted where coercion applies; equal types pass untouched *)
 Theorem widening_is_accepted : forall p act exp,
